@@ -184,7 +184,7 @@ class Model:
             if looks_special(v):
                 raise Unspec("null-ish/boolean-looking cell text")
             return v
-        if k in ("int", "flt", "str"):
+        if k in ("int", "flt", "str", "regex"):
             return n[1]
         if k == "var":
             return self.getvar(n[1], n[2])
@@ -257,6 +257,33 @@ class Model:
             if is_none(v):
                 raise Unspec("length of none/empty")
             return len(str(v).strip())
+        if f == "count_headers":
+            return len(self.headers)
+        if f == "count_headers_in_line":
+            return len(self.line)
+        if f == "end":
+            i = len(self.line) - 1
+            if a:
+                i -= abs(int(self.val(a[0])))
+            if 0 <= i < len(self.line):
+                v = self.line[i].strip()
+                if looks_special(v):
+                    raise Unspec("null-ish/boolean-looking cell text")
+                return v
+            return None
+        if f in ("regex", "exact"):
+            import re as _re
+
+            rx, target = (a[0], a[1]) if a[0][0] == "regex" else (a[1], a[0])
+            v = self.val(target)
+            if v is None:
+                raise ExpErr("regex on an absent value is rejected by argument validation")
+            if not isinstance(v, str):
+                raise Unspec("regex on non-string")
+            m = _re.search(rx[1].strip("/"), v)
+            if f == "regex":
+                return m.group(0) if m else None
+            return bool(m) and m.group(0) == v
         if f == "count_lines":
             return self.data_count
         if f == "line_number":
@@ -520,6 +547,12 @@ class Model:
             cur = self.getvar(name, key) or 0
             self.setvar(name, cur + 1, key)
             return True
+        if f == "regex":
+            return self.fnval(n) is not None
+        if f == "exact":
+            return self.fnval(n)
+        if f == "end":
+            return self.fnval(n) is not None
         if f == "last":
             self.check_a1()
             return self.is_last_line
